@@ -123,11 +123,17 @@ def configs(tier):
             for init in ("svd", "random", "user"):
                 for it in its:
                     for norm in (0, 1):
-                        if _heavy(shp, R, init) and (it > (0 if q else 1) or norm):
+                        if _heavy(shp, R, init) and (q or it > 1 or norm):
                             continue  # 512+ paths through svd_flip / NNDSVD per mode
                         if len(shp) == 3 and R == 2 and it >= 2 and q and norm:
                             continue
                         add(f"loop/nn_cp_mu/{_sh(shp)}/R{R}/init_{init}/norm{norm}/it{it}", fn="l_cp_mu", shape=shp, R=R, init=init, it=it, norm=norm)
+    # tiny instances (small terms: a wrong clip in the multiplicative updates is found and replayed within the query budget)
+    for shp in [(1, 2), (2, 1)]:
+        for it in (1, 2):
+            for norm in (0, 1):
+                add(f"loop/nn_cp_mu/{_sh(shp)}/R1/init_user/norm{norm}/it{it}", fn="l_cp_mu", shape=shp, R=1, init="user", it=it, norm=norm)
+                add(f"loop/nn_tucker_mu/{_sh(shp)}/R1/init_user/norm{norm}/it{it}", fn="l_tk_mu", shape=shp, R=1, init="user", it=it, norm=norm)
     for shp in shapes:
         for R in (1, 2):
             for init in ("svd", "random", "user"):
@@ -143,10 +149,10 @@ def configs(tier):
             add(f"loop/nn_cp_hals/{_sh(shp)}/R{R}/init_user/nn_all/norm1_sp1/it1", fn="l_cp_hals", shape=shp, R=R, init="user", it=1, nn_modes="all", norm=1, sp=1)
     for shp in shapes:
         for R in (1, 2):
-            for init in ("svd", "random"):
+            for init in ("svd", "random", "user"):
                 for it in its:
                     for norm in (0, 1):
-                        if _heavy(shp, R, init) and (it > (0 if q else 1) or norm):
+                        if _heavy(shp, R, init) and (q or it > 1 or norm):
                             continue
                         if len(shp) == 3 and R == 2 and it >= 2 and q:
                             continue
@@ -250,11 +256,11 @@ def stub_hals(E, assume_nondegenerate=False):
         V = sym.sarr(V)
         out = np.empty(V.shape, dtype=object)
         for k in range(V.shape[0]):
+            fresh = backend.fresh_array("hals", (V.shape[1],), nn=True)
             if assume_nondegenerate:
                 E.assume(UtU[k, k] != 0)  # stated in the config key and in ASSUMPTIONS
-            fresh = backend.fresh_array("hals", (V.shape[1],), nn=True)
             for c in range(V.shape[1]):
-                out[k, c] = sym.ite(UtU[k, k] != 0, fresh[c], V[k, c])
+                out[k, c] = fresh[c] if assume_nondegenerate else sym.ite(UtU[k, k] != 0, fresh[c], V[k, c])
         return out.view(sym.SArr)
 
     return hals_nnls
@@ -480,12 +486,12 @@ def _setup(E, cfg, **kw):
         sym.CTX.intern_roots = False  # sign reasoning only: no need to identify equal norms
 
 
-def _check_cp(E, res, dec, R, shape):
+def _check_cp(E, res, dec, R, shape, groups=()):
     w, fs = res
     E.prove("shapes", np.shape(w) == (R,) and all(np.shape(f) == (shape[m], R) for m, f in enumerate(fs)))
-    nonneg(E, "weights_nonneg", w)
+    nonneg(E, "weights_nonneg", w, groups=groups)
     for m in dec:
-        nonneg(E, f"factor{m}_nonneg", fs[m])
+        nonneg(E, f"factor{m}_nonneg", fs[m], groups=groups)
 
 
 def h_l_cp_mu(E, cfg):
@@ -499,7 +505,7 @@ def h_l_cp_mu(E, cfg):
 
 
 def h_l_cp_hals(E, cfg):
-    from vt import backend
+    from vt import backend, sym
 
     _setup(E, cfg)
     shape, R = cfg["shape"], cfg["R"]
@@ -509,11 +515,15 @@ def h_l_cp_hals(E, cfg):
     init = cfg["init"] if cfg["init"] != "user" else _cp_user_init(E, shape, R, dec)
     sp = [E.real(f"sp{m}", nn=True) for m in range(N)] if cfg["sp"] else None
     if E.symbolic:
+        # unconstrained modes: tl.solve by Cramer (R <= 2) where no tolerance branch has to be decided on the resulting terms,
+        # so that a wrong dispatch between constrained / unconstrained modes is replayable; havoc otherwise
+        backend.configure(svd="havoc", qr="havoc", solve="exact" if (cfg["it"] <= 1 and cfg["init"] == "user") else "havoc")
+        sym.CTX.intern_roots = False
         backend.patch(_nn_cp, "hals_nnls", stub_hals(E))
     res = _nn_cp.non_negative_parafac_hals(
         T, R, n_iter_max=cfg["it"], init=init, tol=0 if cfg["it"] < 2 else E.real("tol", pos=True), random_state=7, sparsity_coefficients=sp, nn_modes=cfg["nn_modes"], normalize_factors=bool(cfg["norm"])
     )
-    _check_cp(E, res, dec, R, shape)
+    _check_cp(E, res, dec, R, shape, groups=("solve",))
 
 
 def _check_tucker(E, res, R, shape):
@@ -525,11 +535,16 @@ def _check_tucker(E, res, R, shape):
         nonneg(E, f"factor{m}_nonneg", fs[m])
 
 
+def _tk_user_init(E, shape, R):
+    return (E.real("G0", (R,) * len(shape), nn=True), [E.real(f"F{m}", (shape[m], R), nn=True) for m in range(len(shape))])
+
+
 def h_l_tk_mu(E, cfg):
     _setup(E, cfg)
     shape, R = cfg["shape"], cfg["R"]
     T = _tensor(E, cfg)
-    res = _tucker.non_negative_tucker(T, [R] * len(shape), n_iter_max=cfg["it"], init=cfg["init"], tol=E.real("tol", pos=True) if cfg["it"] >= 3 else 0, random_state=7, normalize_factors=bool(cfg["norm"]))
+    init = cfg["init"] if cfg["init"] != "user" else _tk_user_init(E, shape, R)
+    res = _tucker.non_negative_tucker(T, [R] * len(shape), n_iter_max=cfg["it"], init=init, tol=E.real("tol", pos=True) if cfg["it"] >= 3 else 0, random_state=7, normalize_factors=bool(cfg["norm"]))
     _check_tucker(E, res, R, shape)
 
 
@@ -547,7 +562,7 @@ def h_l_tk_hals(E, cfg):
     sp = [E.real(f"sp{m}", nn=True) for m in range(N)]
     try:
         res = _tucker.non_negative_tucker_hals(
-            T, [R] * N, n_iter_max=cfg["it"], init=cfg["init"], tol=0, random_state=7, sparsity_coefficients=sp, core_sparsity_coefficient=E.real("csp", nn=True), normalize_factors=bool(cfg["norm"]), algorithm=cfg["alg"]
+            T, [R] * N, n_iter_max=cfg["it"], init=cfg["init"] if cfg["init"] != "user" else _tk_user_init(E, shape, R), tol=0, random_state=7, sparsity_coefficients=sp, core_sparsity_coefficient=E.real("csp", nn=True), normalize_factors=bool(cfg["norm"]), algorithm=cfg["alg"]
         )
     except np.linalg.LinAlgError:
         return  # replay only: singular Gram data in the real active-set solver (outside the claim: nothing is returned)
